@@ -160,6 +160,22 @@ tests; the damage must sit on a path the tests do not take.""",
 nested `if`) of which exactly ONE is not behaviour-preserving for some inputs. Include two or three harmless rewrites around it so that the
 commit reads as routine.""",
  ],
+ "r18": [
+"""Aim for a defect that needs SEVERAL LIMITS REACHED AT ONCE (combined maxima / second-order boundaries): the maximum count together with
+the maximum padding and a maximum-length text; a length that is a multiple of 4 AND of 256; the last legal value of one field with the
+first illegal value of another; sums and products of two individually legal quantities that cross a third limit (u8, u16, 31, 255, 65536
+words). Each quantity on its own - at its maximum or not - must behave exactly as before; only the combination differs.""",
+"""Aim for a DATA-DEPENDENT SHORTCUT: code that skips, merges, compresses or stops early depending on the VALUES it sees - equal or
+adjacent entries coalesced, a run of zeros skipped, a prefix comparison that stops at the first difference or at the shorter length, an
+"unchanged since last time" check that compares the wrong thing, sorting or de-duplicating as a side effect of a lookup, an early `break`
+on a sentinel value that is also legal data. The triggering values must be legal and inside what the property quantifies over, and
+unremarkable values - distinct, non-zero, unsorted - must behave exactly as before.""",
+"""Aim for an OWNERSHIP / LIFETIME REFACTOR gone subtly wrong: `Cow` replaced by (or replacing) owned or borrowed storage, `into_owned` /
+`to_owned` / `to_vec` taken at the wrong moment or of the wrong range (before a later setter changes it, without the prefix, including
+the header), a builder that becomes `'static` by copying only part of its state, a parsed view that re-slices its input (`&data[a..b]`)
+with bounds computed for the old representation, `Clone` of a value that shares what it should copy or copies what it should share. The
+borrowed path the tests use must stay byte-for-byte as before.""",
+ ],
 }
 
 
